@@ -80,16 +80,16 @@ func VerifC01GenMutate() {
 	switch vrtChoice("via", vrtParam("VIA", 4)) {
 	case 3: // the mutated document is the file a service of the main file extends (loaded without schema validation)
 		vrtYamlFile(vrtRoot()+"/w/other/base.yaml", doc)
-		m, err = tcLoad(nil, opts, map[string]any{"services": map[string]any{"web": map[string]any{"extends": map[string]any{"file": "other/base.yaml", "service": genSvc}}}})
+		m, err = c01Load(opts, map[string]any{"services": map[string]any{"web": map[string]any{"extends": map[string]any{"file": "other/base.yaml", "service": genSvc}}}})
 	case 0:
-		m, err = tcLoad(nil, opts, doc)
+		m, err = c01Load(opts, doc)
 	case 1: // the mutated document is a main file that also includes a valid file
 		vrtYamlFile(vrtRoot()+"/w/inc.yaml", map[string]any{"services": map[string]any{"inc": map[string]any{"image": "i"}}, "volumes": map[string]any{"iv": nil}})
 		doc["include"] = []any{"inc.yaml"}
-		m, err = tcLoad(nil, opts, doc)
+		m, err = c01Load(opts, doc)
 	case 2: // the mutated document is the included file
 		vrtYamlFile(vrtRoot()+"/w/inc.yaml", doc)
-		m, err = tcLoad(nil, opts, map[string]any{"include": []any{"inc.yaml"}, "services": map[string]any{"own": map[string]any{"image": "i"}}})
+		m, err = c01Load(opts, map[string]any{"include": []any{"inc.yaml"}, "services": map[string]any{"own": map[string]any{"image": "i"}}})
 	}
 	c01Outcome(m, err)
 }
